@@ -23,6 +23,14 @@ def _fmt(obj, format_spec=""):
                 return "<sym>"
             if getattr(type(obj), "__ch_opaque__", False) and format_spec == "":
                 return "<" + type(obj).__name__ + ">"      # harness doubles carrying symbolic fields
+        if format_spec == "" and type(obj) in (tuple, list):
+            with NoTracing():
+                flat = all(isinstance(x, (int, str, bytes, float, type(None), B.SymbolicInt, B.SymbolicBytes, B.AnySymbolicStr, B.SymbolicFloat, B.SymbolicBool)) for x in obj)
+            if flat:
+                return "<seq>"          # repr of builtin scalars cannot raise
+        if (format_spec == "" and not isinstance(obj, core.CrossHairValue) and type(obj).__format__ is object.__format__
+                and type(obj).__str__ is not object.__str__ and type(obj).__module__.startswith(("diameter", "engine", "harness"))):
+            return str(obj)            # plain object: its own (traced) __str__ instead of deep-realising every field
     return _orig(obj, format_spec)
 
 
